@@ -11,7 +11,7 @@ ID = "C11"
 PARALLEL = 16
 RULE = ("exhaustive: every dataset of n <= 10 (quick: n <= 7) sorted entries x all 2^(n-1) ways of cutting it into consecutive "
         "non-empty chunks: group-by on every key pattern (which neighbours share a key) for the encoded-ragged key column "
-        "(first=last shortcut; every (pattern, chunking) pair for n <= 9 / 7, a seeded quarter of the 4^9 pairs for n = 10) and for string and integer key columns (n <= 8 / 6); mean / bincount / histogram "
+        "(first=last shortcut; every (pattern, chunking) pair for n <= 9 / 7, a seeded 15% of the 4^9 pairs for n = 10) and for string and integer key columns (n <= 8 / 6); mean / bincount / histogram "
         "(explicit edges and bins+range) / k-mer counts (k=1,2,3) / chunk_entries / chunk_lines (n_entries 1..n+1) on fixed "
         "datasets; computation graphs (shared streams, unused nodes, stream roots) on all chunkings of n <= 6 / 5; then seeded "
         "random larger datasets (n <= 40) with sampled cut sets, random graphs, multi-root / reduction graphs and stream=True "
@@ -53,7 +53,7 @@ MANIFEST = {
             "three reductions; the joining node's own buffer index is not modelled (only its own iterator advances it). In the "
             "pipeline theorems get_pileup / slicing per chromosome are NumPy/npstructures externals at list level; stranded "
             "extraction, merged() and means of values under intervals are corresponded only. The n = 10 group-by scope is a "
-            "seeded quarter of the 4^9 (key pattern, chunking) pairs in the thorough tier; n <= 9 is exhaustive.",
+            "seeded 15% of the 4^9 (key pattern, chunking) pairs in the thorough tier; n <= 9 is exhaustive.",
     "technique": "Lean 4 proofs by induction over the chunk list / interpreter invariants + executable model run against the implementation on all chunkings of small datasets",
     "design": "§6 C11",
 }
@@ -219,8 +219,8 @@ def cases(tier, rng):
                 if n > lim:
                     continue
                 for pat in range(2 ** (n - 1)):
-                    if n == 10 and rng.random() >= 0.25:
-                        continue            # largest scope: a seeded quarter of the 4^9 (pattern, chunking) pairs
+                    if n == 10 and rng.random() >= 0.15:
+                        continue            # largest scope: a seeded 15% of the 4^9 (pattern, chunking) pairs
                     ks = _keys_from_pattern(n, pat)
                     yield {"op": "groupby", "kt": kt, "fast": kt == "ragged",
                            "chunks": _cut([[k, i] for i, k in enumerate(ks)], mask)}
@@ -293,7 +293,7 @@ def cases(tier, rng):
                     roots.append(len(nodes) - 1)
                 yield {"op": "graph_many", "nodes": nodes, "roots": roots, "mode": "reduce"}
     # 3. stream=True genome pipelines evaluated with compute
-    P = 4000 if big else 400
+    P = 2500 if big else 400
     for _ in range(P):
         nchrom = rng.randrange(1, 5)
         sizes = [rng.randrange(3, 13) for _ in range(nchrom)]
